@@ -109,7 +109,7 @@ double integral_scale(const std::vector<double>& X, const std::vector<double>& Y
 
 VCLAUSE(integrate, 700, 6000, 150000, "limits span at least two knots, are reversed or reach into the extrapolation zone, or the prefactor changed between queries")
 {
-	Table t = gen_table(c.s, 3, 80);
+	Table t = gen_table(c.s, c.s.chance(0.05) ? 2 : 3, 80);
 	int N	= (int) t.x.size();
 	VLOG(c, show_table(t));
 	Interpolation f, unit;
@@ -236,7 +236,7 @@ VCLAUSE(integrate, 700, 6000, 150000, "limits span at least two knots, are rever
 
 VCLAUSE(extrema, 700, 6000, 150000, "the range spans at least two knots and the extreme knot is the last one inside, or the prefactor is negative")
 {
-	Table t = gen_table(c.s, 3, 80);
+	Table t = gen_table(c.s, c.s.chance(0.05) ? 2 : 3, 80);
 	int N	= (int) t.x.size();
 	VLOG(c, show_table(t));
 	Interpolation f;
@@ -331,15 +331,45 @@ VCLAUSE(extrema_2d, 500, 4000, 100000, "the prefactor is negative or was changed
 	std::vector<double> x = gen_abscissae(s, nx, 4.0), y = gen_abscissae(s, ny, 4.0);
 	std::vector<std::vector<double>> fv(nx, std::vector<double>(ny));
 	double mag = std::pow(10.0, s.uniform(-10, 10));
+	// sign structure of the table: straddling zero, all positive (the physical case), all negative - an accumulator seeded with zero or a
+	// comparison of magnitudes passes the first kind only
+	int signs = s.pick({2, 2, 1});
 	for(auto& r : fv)
 		for(auto& v : r)
+		{
 			v = s.chance(0.05) ? 0.0 : mag * s.uniform(-1, 1) * (s.chance(0.1) ? 100 : 1);
+			if(signs == 1)
+				v = mag * (0.5 + std::fabs(v) / mag);
+			else if(signs == 2)
+				v = -mag * (0.5 + std::fabs(v) / mag);
+		}
+	c.cls(signs == 0 ? "table_straddles_zero" : (signs == 1 ? "table_all_positive" : "table_all_negative"));
 	// place the extreme entries anywhere, including the last row/column
-	fv[(size_t) s.range(0, nx - 1)][(size_t) s.range(0, ny - 1)] = -mag * 1000 * s.unit();
-	fv[(size_t) s.range(0, nx - 1)][(size_t) s.range(0, ny - 1)] = mag * 1000 * s.unit();
+	if(signs == 0)
+	{
+		fv[(size_t) s.range(0, nx - 1)][(size_t) s.range(0, ny - 1)] = -mag * 1000 * s.unit();
+		fv[(size_t) s.range(0, nx - 1)][(size_t) s.range(0, ny - 1)] = mag * 1000 * s.unit();
+	}
+	else
+	{
+		double sg = signs == 1 ? 1.0 : -1.0;
+		fv[(size_t) s.range(0, nx - 1)][(size_t) s.range(0, ny - 1)] = sg * mag * 1e-3 * (1 + s.unit());
+		fv[(size_t) s.range(0, nx - 1)][(size_t) s.range(0, ny - 1)] = sg * mag * 1000 * (1 + s.unit());
+	}
 	VLOG(c, "grid " << nx << "x" << ny << " x=" << show(x) << " y=" << show(y) << " f=" << show(fv));
 	Interpolation_2D f;
-	VMUST_RETURN("Interpolation_2D constructor", f = Interpolation_2D(x, y, fv));
+	// either constructor: (x, y, f) lists or the three-column table (x runs slowest)
+	if(s.coin())
+		VMUST_RETURN("Interpolation_2D constructor", f = Interpolation_2D(x, y, fv));
+	else
+	{
+		std::vector<std::vector<double>> tab;
+		for(int i = 0; i < nx; i++)
+			for(int j = 0; j < ny; j++)
+				tab.push_back({x[(size_t) i], y[(size_t) j], fv[(size_t) i][(size_t) j]});
+		c.cls("three_column_table_constructor");
+		VMUST_RETURN("Interpolation_2D table constructor", f = Interpolation_2D(tab));
+	}
 	Pref pf;
 	apply_prefactor_ops(c, f, pf, 3);
 	double P = pf.P;
